@@ -1,12 +1,17 @@
 (* Extraction of the C11 models for the correspondence check. ExtrOcamlBasic only. *)
 From V.lib Require Import Base.
-From V.c11 Require Import C11Model.
+From V.c09 Require Import C09Model C09Spec.
+From V.c05 Require Import C05Model C05FragModel.
+From V.c11 Require Import C11Model C11FetchModel C11Spec.
 Require Import ExtrOcamlBasic.
 Separate Extraction
-  nat track sync_point fsample trun_in frag_in trex traf_out frag_out
+  nat track sync_point fsample trun_in frag_in C11Model.trex traf_out frag_out
   get_decode_time get_sample_nr_at_time get_cto
   get_segment_starts get_segment_intervals get_segment_intervals_pinned
   segment_plan segment_plan_pinned
   resegment resegment_file nr_samples_first_truns fragmentify
-  create_multi add_sample_to_track add_all combine_tracks read_track trun_layout
-  read_trun.
+  C11Model.create_multi C11Model.add_sample_to_track add_all combine_tracks read_track trun_layout
+  read_trun
+  fetch_interval fetch_meta_interval copy_media_data create_sample_flags
+  C09Spec.consistent data_ok one_offset_box expansion
+  seg_track seg_track_lazy mux_segments read_back read_all.
